@@ -113,6 +113,9 @@ class FJSPSpec(SSpec):
                 out.append((f"jssp2x2-{ci}", fjsp_inst([2, 2], table, 4, 2)))
             # same machine twice for a job, and a 3x2 instance
             out.append(("jssp2x2-same", fjsp_inst([2, 2], [{0: 2}, {0: 1}, {0: 1}, {1: 3}], 4, 2)))
+            # jobs of unequal length (padded to the common operation count)
+            out.append(("jssp2x2-u12", fjsp_inst([1, 2], [{0: 2}, {1: 1}, {0: 3}], 4, 2)))
+            out.append(("jssp2x2-u21", fjsp_inst([2, 1], [{1: 2}, {0: 1}, {1: 3}], 4, 2)))
             # long horizons: the clock passes the library's "not yet scheduled" sentinel (INIT_FINISH = 9999) while a job is idle
             out.append(("jssp2x2-long", fjsp_inst([2, 2], [{0: 6000}, {1: 5000}, {0: 6000}, {1: 1}], 4, 2)))
             out.append(("jssp3x1-long", fjsp_inst([1, 1, 1], [{0: 6000}, {0: 5000}, {0: 1}], 3, 1)))
